@@ -71,6 +71,18 @@ SCOPE_CLASSES = (
 )
 
 
+def _first_line(scope: ast.AST) -> int:
+    """The first line of a scope as seen by its code object.
+
+    The ``co_firstlineno`` of a decorated function or class is the line of its first
+    decorator, whereas the AST node starts at the ``def``/``class`` keyword.
+    """
+    start = scope_line_range(scope)[0]
+    return min(
+        (start, *(decorator.lineno for decorator in getattr(scope, "decorator_list", ()))),
+    )
+
+
 def _is_main(node: ast.If) -> bool:
     """Check for 'if __name__ == "__main__":' block."""
     return (
@@ -122,7 +134,8 @@ class ModuleAstInfo:
         """Get the AST info of the scope.
 
         Args:
-            lineno: The line number of the scope.
+            lineno: The first line number of the scope, i.e. the ``co_firstlineno`` of
+                its code object (the line of the first decorator, if there is one).
 
         Returns:
             The AST info of the scope, or None if there are no scope at lineno
@@ -131,7 +144,7 @@ class ModuleAstInfo:
             iter(
                 scope
                 for scope in nodes_of_class(self.module_ast, SCOPE_CLASSES)
-                if scope_line_range(scope)[0] == lineno
+                if _first_line(scope) == lineno
             ),
             None,
         )
